@@ -218,7 +218,7 @@ def parse_N_list(out):
         raise InfraError("cannot parse model output: " + out[:500])
     return [int(x) for x in re.findall(r"\d+", m.group(1))]
 
-def coq_check_shards(name, preamble, case_terms, checker, shard_size=400, timeout=900):
+def coq_check_shards(name, preamble, case_terms, checker, shard_size=400, timeout=900, case_type=None):
     """case_terms: list of Coq terms (one per case); checker: a Coq function from case to bool.
     Returns the indices (into case_terms) on which checker returns false."""
     shards = [case_terms[i:i + shard_size] for i in range(0, len(case_terms), shard_size)]
@@ -228,7 +228,7 @@ def coq_check_shards(name, preamble, case_terms, checker, shard_size=400, timeou
     sem = threading.Semaphore(NPROC)
     def one(si, shard):
         with sem:
-            src = preamble + "\nDefinition cases := [\n" + ";\n".join(shard) + "\n].\n"
+            src = preamble + "\nDefinition cases" + (f" : list ({case_type})" if case_type else "") + " := [\n" + ";\n".join(shard) + "\n].\n"
             src += ("Fixpoint bad_indices {A} (f : A -> bool) (l : list A) (i : N) : list N :=\n"
                     "  match l with [] => [] | x :: r => if f x then bad_indices f r (N.succ i) else i :: bad_indices f r (N.succ i) end.\n")
             src += f"Eval vm_compute in (bad_indices ({checker}) cases 0%N).\n"
